@@ -1,7 +1,10 @@
 package witness
 
 import (
+	"errors"
+	"strings"
 	"testing"
+	"time"
 
 	"github.com/gofiber/fiber/v3"
 	"github.com/gofiber/fiber/v3/middleware/csrf"
@@ -34,5 +37,37 @@ func TestF14_RefererWildcardSuffix(t *testing.T) {
 	app.Handler()(&r2)
 	if ran {
 		t.Fatalf("POST from https://evil.com (path ending in .example.com) reached the handler, status %d", r2.Response.StatusCode())
+	}
+}
+
+type failingDeleteStore struct {
+	m map[string][]byte
+}
+
+func (s *failingDeleteStore) Get(k string) ([]byte, error)                  { return s.m[k], nil }
+func (s *failingDeleteStore) Set(k string, v []byte, _ time.Duration) error { s.m[k] = v; return nil }
+func (s *failingDeleteStore) Delete(string) error                           { return errors.New("storage is down") }
+func (s *failingDeleteStore) Reset() error                                  { return nil }
+func (s *failingDeleteStore) Close() error                                  { return nil }
+
+// F36: with SingleUseToken the token is consumed by deleting it from the store. The store's error was
+// dropped: when the delete fails the request still went through and the token stayed valid.
+func TestF36_SingleUseTokenNeedsTheDeleteToSucceed(t *testing.T) {
+	app := fiber.New()
+	app.Use(csrf.New(csrf.Config{SingleUseToken: true, Storage: &failingDeleteStore{m: map[string][]byte{}}}))
+	ran := 0
+	app.Get("/", func(c fiber.Ctx) error { return nil })
+	app.Post("/", func(c fiber.Ctx) error { ran++; return nil })
+	rc := do(app, "GET", "/")
+	ck := string(rc.Response.Header.PeekCookie("csrf_"))
+	tok := ck[len("csrf_="):]
+	if i := strings.IndexByte(tok, ';'); i >= 0 {
+		tok = tok[:i]
+	}
+	for i := 0; i < 2; i++ {
+		do(app, "POST", "/", "X-Csrf-Token", tok, "Cookie", "csrf_="+tok)
+	}
+	if ran != 0 {
+		t.Fatalf("the token store failed to consume the single-use token, yet %d unsafe request(s) reached the handler with it", ran)
 	}
 }
